@@ -581,7 +581,11 @@ Definition join_one (e : env) (k : skey) (channelname key : string) : M unit :=
             reply_num k "473" [s_nick s; c_name c; "Cannot join channel (+i)"] ;;; retM None
           else if has_mode 120 (c_modes c) && negb invited then
             DO ok <- verify_captcha e k key IN
-            if ok then retM (Some (false, c))
+            if ok then
+              (* the captcha replaces the invitation and the key, it does not lift bans (repaired code) *)
+              if banned (c_bans c) (prefix_string (s_prefix s)) (s_nick s ++ "!" ++ s_user s ++ "@" ++ s_remoteAddr s) then
+                reply_num k "474" [s_nick s; c_name c; "Cannot join channel (+b)"] ;;; retM None
+              else retM (Some (false, c))
             else
               captcha_url_check k ;;;
               reply_num k "NOTICE" [s_nick s; "To join " ++ c_name c ++ ", please go to MASKED"] ;;;
